@@ -8,7 +8,8 @@
 //!  5 ast NAME             `captive-portal: <ast>`: parse_string / type_to_name
 //!  7 F ast ORACLES RESULT a whole fragment (F = 1 dns-routes entry, 2 `prefixes` entry, 3 pref64) against the model's
 //!                         fragment parser; ast carries its strings (see `put_full_ast`, `frag_case`)
-//!  8 K text Y [NDOCS AST ROWS NKEYS class*] LOAD   every document (K = 1 grammar / sweep, 2 byte mutation, 3 example)
+//!  8 K text Y [NDOCS AST ROWS NKEYS class*] LOAD'  (LOAD' = LOAD with `npol (0 | 1 size)*`, the pool of every top-level policy, before SERVE)
+//!     every document (K = 1 grammar / sweep, 2 byte mutation, 3 example)
 //!                         with its AST (values included) and the external parsers' answers, against the model of
 //!                         the WHOLE loader (coq/Model/ConfigLoad.v); see `doc_case8`
 //!  6 text what a b        a document NOT run: it expands more than 2^17 pool addresses (see `screen`)
@@ -356,6 +357,11 @@ fn serve(rt: &tokio::runtime::Runtime, shared: &SharedConfig) -> (u64, String) {
 
 /// LOAD part of a case line; returns (class, serve code, message)
 fn put_load(t: &mut Toks, text: &str) -> (u64, u64, String) {
+    put_load_opt(t, text, false)
+}
+
+/// with_pools: after the summary, the pool of every top-level DHCP policy: npol (0 | 1 size)*
+fn put_load_opt(t: &mut Toks, text: &str, with_pools: bool) -> (u64, u64, String) {
     let rt = new_rt();
     let (class, shared, msg) = load(&rt, text);
     t.n(class);
@@ -363,6 +369,19 @@ fn put_load(t: &mut Toks, text: &str) -> (u64, u64, String) {
         {
             let cfg = shared.try_read().expect("config lock");
             summary(t, &cfg);
+            if with_pools {
+                t.n(cfg.dhcp.policies.len() as u64);
+                for p in &cfg.dhcp.policies {
+                    match &p.apply_address {
+                        Some(set) => {
+                            t.n(1).n(set.len() as u64);
+                        }
+                        None => {
+                            t.n(0);
+                        }
+                    }
+                }
+            }
         }
         let (s, m) = serve(&rt, &shared);
         t.n(s);
@@ -1320,7 +1339,7 @@ fn doc_case8(kind: u64, text: &str, stats: &mut Stats, what: &str) -> Toks {
             stats.bump(&format!("{}.not-yaml", what));
         }
     }
-    let (c, s, m) = put_load(&mut t, text);
+    let (c, s, m) = put_load_opt(&mut t, text, true);
     note_outcome(stats, what, c, s, &m);
     t
 }
